@@ -58,6 +58,7 @@ type tOpt struct {
 	RewindQid bool // tdc kinds: every call first rewinds the wire-ID counter to StartQid (a reachable state after 65536 allocations): IDs of queries still in flight must be skipped
 	Withdraw  bool // tdc kinds: a caller may reserve and withdraw instead of exchanging
 	IdleTimeout time.Duration
+	CloseIdleOrder bool // between the stages the server closes the connections stage 1 left behind, one at a time, in an order (and up to a number) that is an environment choice
 	FreezeStage1 bool // the callers before StageTwo only build the starting state: they run on the default schedule (vs.Freeze), exploration starts with the staged callers
 	KeepReleased bool // the buffer pool does not overwrite released buffers in this scenario (see fk.PoisonOnRelease)
 }
@@ -242,7 +243,15 @@ func (s *tsys) serve(cn *tConn) {
 			}
 			for _, m := range msgs {
 				if fk.QName(m) == "" {
-					cn.garbled++ // not a DNS query at all (mis-framed stream): a real server would drop it
+					cn.garbled++ // not a DNS query at all (mis-framed stream)
+					if len(m) > 12 {
+						// like a server that answers what it cannot parse by sending it back
+						// with QR and FORMERR set: the ID is what it found in the first two bytes
+						h := append([]byte(nil), m...)
+						h[2], h[3] = 0x80, 0x01
+						cn.actLog += "F"
+						s.deliver(cn, h)
+					}
 					continue
 				}
 				if cn.dropped < so.DropFirst {
@@ -515,6 +524,26 @@ func (s *tsys) run() {
 			if ci >= o.Callers-o.StageTwo {
 				stage1.Wait()
 				vs.Sleep(time.Millisecond) // let the read loops digest what the server did
+				if o.CloseIdleOrder && ci == o.Callers-o.StageTwo {
+					var open []*tConn
+					for _, cn := range s.conns {
+						if !cn.closedBySrv && !cn.a.Closed() {
+							open = append(open, cn)
+						}
+					}
+					for len(open) > 0 {
+						i := vs.Choose(len(open) + 1)
+						if i == len(open) {
+							break // the rest stays open
+						}
+						cn := open[i]
+						open = append(open[:i:i], open[i+1:]...)
+						cn.actLog += "x"
+						s.closeLeft++
+						s.srvClose(cn)
+						vs.Sleep(time.Millisecond)
+					}
+				}
 				if o.FreezeStage1 {
 					vs.Unfreeze()
 				}
